@@ -140,6 +140,10 @@ impl Scene for S {
             ops.push(Op::Sleep(5));
             ops.push(self.submit(M_AFTER));
             ops.push(Op::UpgradeProbe(H::WSnd(0)));
+            // the new incarnation's own context is as functional as the first one's
+            ops.push(self.submit(M_UPWS));
+            ops.push(self.submit(M_UPWA));
+            ops.push(self.submit(M_UPWC));
         }
         ops.push(self.submit(M_STOP));
         // keep the handles until the (possibly fire-and-forget) probes have been handled
@@ -388,6 +392,100 @@ fn abandoned_tick_cases(tier: Tier) -> Vec<Case> {
     v
 }
 
+/// "Conversions between handle kinds never change which actor is addressed" - as seen by a
+/// third party that tells actors apart: the broker. The actor subscribes itself through its
+/// context; a client names the same actor through a handle it derived along some conversion
+/// path. Subscribing again through that name must not double the deliveries, unsubscribing
+/// through it must end them.
+struct BrokerIdentity {
+    /// 0 Addr, 1 clone of a clone, 2 downgrade + upgrade, 3 OwningAddr::to_addr, 4 Sender::downgrade, 5 WeakAddr::upgrade of a context-made weak address is not available to clients: weak_sender of a detached owner
+    path: u8,
+    mailbox: Mailbox,
+}
+
+impl Scene for BrokerIdentity {
+    fn roles(&self) -> Vec<RoleCfg> {
+        let mut r = RoleCfg::default();
+        r.started_actions = vec![Action::Subscribe { topic: 1 }];
+        vec![r]
+    }
+    fn pre(&self) {
+        use futures::FutureExt as _;
+        let _ = hannibal::Addr::<hannibal::Broker<crate::world::T1>>::unregister().now_or_never();
+    }
+    fn setup(&self, exec: &Exec) {
+        use crate::world::{log, T1};
+        use hannibal::{Broker, Service as _};
+        let owning = spawn_probe(0, SpawnCfg::plain(self.mailbox));
+        let path = self.path;
+        exec.spawn_client(0, async move {
+            let step = |i: u16, r: Res| log(Ev::End { c: 0, i, r });
+            let ru = |r: hannibal::error::Result<()>| if r.is_ok() { Res::Ok } else { Res::Err(crate::world::ErrKind::Send) };
+            // let the actor start (and subscribe itself) first
+            log(Ev::Begin { c: 0, i: 0 });
+            crate::world::sleep(2).await;
+            step(0, Res::Ok);
+            let addr = owning.to_addr();
+            let name: hannibal::WeakSender<T1> = match path {
+                0 => addr.weak_sender::<T1>(),
+                1 => addr.clone().clone().weak_sender::<T1>(),
+                2 => addr.downgrade().upgrade().expect("upgrade while alive").weak_sender::<T1>(),
+                3 => owning.to_addr().weak_sender::<T1>(),
+                4 => addr.sender::<T1>().downgrade(),
+                _ => addr.sender::<T1>().downgrade().upgrade().expect("upgrade while alive").downgrade(),
+            };
+            log(Ev::Begin { c: 0, i: 1 });
+            step(1, ru(Broker::<T1>::subscribe(name.clone()).await));
+            log(Ev::Begin { c: 0, i: 2 });
+            step(2, ru(Broker::<T1>::publish(T1(41)).await));
+            log(Ev::Begin { c: 0, i: 3 });
+            let _ = addr.ping().await;
+            step(3, ru(Broker::<T1>::from_registry().await.unsubscribe(name).await));
+            log(Ev::Begin { c: 0, i: 4 });
+            step(4, ru(Broker::<T1>::publish(T1(42)).await));
+            // keep the actor alive until everything published has been delivered
+            log(Ev::Begin { c: 0, i: 5 });
+            crate::world::sleep(3).await;
+            drop(addr);
+            drop(owning);
+            step(5, Res::Ok);
+        });
+    }
+    fn check(&self, t: &Trace) -> Vec<Violation> {
+        let an = An::new(t.log);
+        let mut out = vec![];
+        let count = |id: u32| an.enters.iter().filter(|e| e.a == 0 && e.cb == (Cb::Topic { topic: 1, id })).count();
+        crate::check::oblige("conversions-address-the-same-actor");
+        let (first, second) = (count(41), count(42));
+        if first != 1 || second != 0 {
+            out.push(Violation {
+                clause: "conversions-address-the-same-actor",
+                key: format!("C15/broker-sees-two-actors/path={}", self.path),
+                detail: format!(
+                    "the actor subscribed itself through its context and was named to the broker through a handle derived from its address (path {}): publication 41 after a second subscribe was delivered {first} time(s) (expected 1), publication 42 after the unsubscribe {second} time(s) (expected 0)",
+                    self.path
+                ),
+            });
+        }
+        out
+    }
+}
+
+fn broker_identity_cases() -> Vec<Case> {
+    let mut v = vec![];
+    for path in 0..6u8 {
+        for mailbox in [Mailbox::U, Mailbox::B(1)] {
+            v.push(Case {
+                desc: format!("strong-kinds [named to the broker through conversion path {path}] mailbox={}", mailbox.name()),
+                exec: ExecCfg { horizon: 30, ..ExecCfg::default() },
+                bound: Some(4),
+                scene: Box::new(BrokerIdentity { path, mailbox }),
+            });
+        }
+    }
+    v
+}
+
 fn base_cases(tier: Tier) -> Vec<Case> {
     let mut v = vec![];
     let mbs: &[Mailbox] = if tier == Tier::Quick { &[Mailbox::U, Mailbox::B(1)] } else { &[Mailbox::U, Mailbox::B(0), Mailbox::B(1), Mailbox::B(2)] };
@@ -432,6 +530,7 @@ fn cases(tier: Tier) -> Vec<Case> {
     let no_restart = |d: &str| d.contains("restart=0");
     let mut v = crate::check::widen(&|| base_cases(tier), &|_| true, &|_| true, Some(&no_restart));
     v.extend(abandoned_tick_cases(tier));
+    v.extend(broker_identity_cases());
     v
 }
 
@@ -439,7 +538,7 @@ pub fn property() -> Property {
     Property {
         id: "C15",
         cases,
-        clauses: &["context-ops-succeed", "timers-keep-firing"],
+        clauses: &["context-ops-succeed", "timers-keep-firing", "conversions-address-the-same-actor"],
         full_rerun_check: true,
         assumptions: &["discrete-event time in the quick tier (ticks are expected at exact virtual times)"],
     }
